@@ -39,6 +39,7 @@ func __lemma(f func())                                   {}
 func __disjoint(a, b any) bool                           { return true }
 func __assumes(label string, f func() bool)              {}
 func __heapof(x any) any                                 { return x }
+func __split(f func() int, lo, hi int)                   {}
 func __ghost(name string) int                            { return 0 }
 func __ghostset(name string, f func() int)               {}
 func __lastsent[T any](ch chan T) (r T)                  { return }
@@ -220,6 +221,14 @@ func buildOverlay(pkgDir string) (*OverlayResult, error) {
 				}
 				fmt.Fprintf(&sb, " __decreases(%s);", strings.Join(ds, ", "))
 			}
+			if sp := c.Flags["split"]; sp != "" {
+				// "split <expr> in lo..hi": verify once per value of expr
+				if k := strings.LastIndex(sp, " in "); k > 0 {
+					if d := strings.Index(sp[k+4:], ".."); d > 0 {
+						fmt.Fprintf(&sb, " __split(func() int { return int(%s) }, %s, %s);", specToGo(sp[:k], resultName), strings.TrimSpace(sp[k+4:k+4+d]), strings.TrimSpace(sp[k+4+d+2:]))
+					}
+				}
+			}
 			if rt := c.Flags["replaytext"]; rt != "" {
 				fmt.Fprintf(&sb, " __replaytext(%s);", rt)
 			}
@@ -281,7 +290,7 @@ func buildOverlay(pkgDir string) (*OverlayResult, error) {
 		res.Files[path] = out
 	}
 	for _, c := range contracts {
-		if !c.Used && !c.IsTemplate {
+		if !c.Used && !c.IsTemplate && !c.IsDirective {
 			res.Problems = append(res.Problems, fmt.Sprintf("contract-target-missing: func %s (%s:%d)", c.Key, c.File, c.Line))
 		}
 	}
